@@ -59,7 +59,7 @@ func (s *Server) Start() error {
 	fmt.Fprintf(logf, "==== start %d\n", s.starts)
 	cmd := exec.Command("sh", "-c", args)
 	cmd.Stdout, cmd.Stderr = logf, logf
-	cmd.Env = append(os.Environ(), s.Env...)
+	cmd.Env = append(append(os.Environ(), "VERIF_DUMP="+filepath.Join(s.Dir, "dump.json")), s.Env...)
 	cmd.SysProcAttr = &syscall.SysProcAttr{Setpgid: true}
 	if err := cmd.Start(); err != nil {
 		logf.Close()
